@@ -3,6 +3,8 @@ package c03
 import (
 	"bytes"
 	stded25519 "crypto/ed25519"
+	"crypto/sha512"
+	"encoding/hex"
 	"fmt"
 	"math/big"
 	"testing"
@@ -13,6 +15,7 @@ import (
 	"github.com/tink-crypto/tink-go/v2/signature"
 	"github.com/tink-crypto/tink-go/v2/signature/ed25519"
 	sigsubtle "github.com/tink-crypto/tink-go/v2/signature/subtle"
+	"github.com/tink-crypto/tink-go/v2/tink"
 	"github.com/tink-crypto/tink-go/v2/verifharness/internal/detrand"
 	"github.com/tink-crypto/tink-go/v2/verifharness/internal/evid"
 	"github.com/tink-crypto/tink-go/v2/verifharness/internal/gen"
@@ -147,5 +150,313 @@ func TestEd25519(t *testing.T) {
 		c.commonCandidates(rt, msg, sig)
 		c.ed25519Candidates(rt, raw, msg, stdPriv)
 		c.finish(rt, msg, evid.NewH().B(seed))
+	})
+}
+
+// ---------------------------------------------------------------------------------------------
+// Ed25519 edge inputs
+//
+// Honest keys and signatures never contain small-order points, non-canonical encodings (y >= p, or
+// x = 0 with the sign bit set), scalars S >= L or points with a small-order component.  Verifiers
+// differ exactly there (cofactored or not, canonical checks on A and R).  The property names the
+// standard algorithm; the stated reference is crypto/ed25519, so the verdict for every such triple
+// is taken from it at run time: Tink accepts iff crypto/ed25519 accepts (prefix and LEGACY suffix
+// as for every other candidate).  The triples are built with an own affine twisted-Edwards
+// arithmetic over math/big (checked against the standard library's public key on every case).
+
+var (
+	edP = new(big.Int).Sub(new(big.Int).Lsh(big.NewInt(1), 255), big.NewInt(19))
+	edD = func() *big.Int { // -121665/121666
+		d := new(big.Int).ModInverse(big.NewInt(121666), edP)
+		d.Mul(d, big.NewInt(-121665))
+		return d.Mod(d, edP)
+	}()
+	edSqrtM1 = new(big.Int).Exp(big.NewInt(2), new(big.Int).Rsh(new(big.Int).Sub(edP, big.NewInt(1)), 2), edP)
+)
+
+type edPoint struct{ x, y *big.Int }
+
+func edAdd(a, b edPoint) edPoint {
+	m := func(u, v *big.Int) *big.Int { return new(big.Int).Mod(new(big.Int).Mul(u, v), edP) }
+	t := m(edD, m(m(a.x, b.x), m(a.y, b.y)))
+	one := big.NewInt(1)
+	xn := new(big.Int).Add(m(a.x, b.y), m(b.x, a.y))
+	yn := new(big.Int).Add(m(a.y, b.y), m(a.x, b.x)) // a = -1
+	xd := new(big.Int).ModInverse(new(big.Int).Mod(new(big.Int).Add(one, t), edP), edP)
+	yd := new(big.Int).ModInverse(new(big.Int).Mod(new(big.Int).Sub(one, t), edP), edP)
+	return edPoint{m(xn, xd), m(yn, yd)}
+}
+
+func edMul(k *big.Int, a edPoint) edPoint {
+	r := edPoint{big.NewInt(0), big.NewInt(1)}
+	for i := k.BitLen() - 1; i >= 0; i-- {
+		r = edAdd(r, r)
+		if k.Bit(i) == 1 {
+			r = edAdd(r, a)
+		}
+	}
+	return r
+}
+
+func edEncode(a edPoint) []byte {
+	b := intToLE(a.y, 32)
+	b[31] |= byte(a.x.Bit(0)) << 7
+	return b
+}
+
+// edDecode follows RFC 8032 5.1.3 except that y >= p is reduced instead of refused (so that the
+// small-order points can be listed from their non-canonical encodings too).
+func edDecode(b []byte) (edPoint, bool) {
+	c := bytes.Clone(b)
+	sign := uint(c[31] >> 7)
+	c[31] &= 0x7f
+	y := leToInt(c)
+	y.Mod(y, edP)
+	y2 := new(big.Int).Mod(new(big.Int).Mul(y, y), edP)
+	u := new(big.Int).Mod(new(big.Int).Sub(y2, big.NewInt(1)), edP)
+	v := new(big.Int).Mod(new(big.Int).Add(new(big.Int).Mul(edD, y2), big.NewInt(1)), edP)
+	x2 := new(big.Int).Mod(new(big.Int).Mul(u, new(big.Int).ModInverse(v, edP)), edP)
+	x := new(big.Int).Exp(x2, new(big.Int).Rsh(new(big.Int).Add(edP, big.NewInt(3)), 3), edP)
+	if new(big.Int).Mod(new(big.Int).Mul(x, x), edP).Cmp(x2) != 0 {
+		x.Mod(x.Mul(x, edSqrtM1), edP)
+	}
+	if new(big.Int).Mod(new(big.Int).Mul(x, x), edP).Cmp(x2) != 0 {
+		return edPoint{}, false
+	}
+	if x.Bit(0) != sign {
+		x.Mod(x.Neg(x), edP)
+	}
+	return edPoint{x, y}, true
+}
+
+var edBase = func() edPoint {
+	y := new(big.Int).Mul(big.NewInt(4), new(big.Int).ModInverse(big.NewInt(5), edP))
+	pt, ok := edDecode(intToLE(y.Mod(y, edP), 32))
+	if !ok {
+		panic("harness: Ed25519 base point")
+	}
+	return pt
+}()
+
+func mustHex(s string) []byte {
+	b, err := hex.DecodeString(s)
+	if err != nil {
+		panic(err)
+	}
+	return b
+}
+
+// edSmallOrder: the canonical encodings of the eight points of order 1, 2, 4, 4, 8, 8, 8, 8, then
+// the six non-canonical encodings of points of order 1, 2 and 4 (y = p or p+1, or x = 0 with the
+// sign bit set).
+var edSmallOrder = [][]byte{
+	mustHex("0100000000000000000000000000000000000000000000000000000000000000"),
+	mustHex("ecffffffffffffffffffffffffffffffffffffffffffffffffffffffffffff7f"),
+	mustHex("0000000000000000000000000000000000000000000000000000000000000000"),
+	mustHex("0000000000000000000000000000000000000000000000000000000000000080"),
+	mustHex("26e8958fc2b227b045c3f489f2ef98f0d5dfac05d3c63339b13802886d53fc05"),
+	mustHex("26e8958fc2b227b045c3f489f2ef98f0d5dfac05d3c63339b13802886d53fc85"),
+	mustHex("c7176a703d4dd84fba3c0b760d10670f2a2053fa2c39ccc64ec7fd7792ac037a"),
+	mustHex("c7176a703d4dd84fba3c0b760d10670f2a2053fa2c39ccc64ec7fd7792ac03fa"),
+	mustHex("0100000000000000000000000000000000000000000000000000000000000080"),
+	mustHex("ecffffffffffffffffffffffffffffffffffffffffffffffffffffffffffffff"),
+	mustHex("edffffffffffffffffffffffffffffffffffffffffffffffffffffffffffff7f"),
+	mustHex("edffffffffffffffffffffffffffffffffffffffffffffffffffffffffffffff"),
+	mustHex("eeffffffffffffffffffffffffffffffffffffffffffffffffffffffffffff7f"),
+	mustHex("eeffffffffffffffffffffffffffffffffffffffffffffffffffffffffffffff"),
+}
+
+func edHashScalar(parts ...[]byte) *big.Int {
+	h := sha512.Sum512(bytes.Join(parts, nil))
+	k := leToInt(h[:])
+	return k.Mod(k, ed25519L)
+}
+
+var edEdgeKinds = []string{"small-A/small-R", "small-A/small-R", "mixed-order-A", "mixed-order-A", "mixed-order-R", "honest-A/small-R", "S-plus-multiple-of-L", "noncanonical-y-A"}
+
+func TestEd25519EdgeInputs(t *testing.T) {
+	// the list is what it claims to be: 8 * P = identity for every entry
+	for i, e := range edSmallOrder {
+		pt, ok := edDecode(e)
+		if !ok {
+			t.Fatalf("harness: small-order encoding %d does not decode", i)
+		}
+		if q := edMul(big.NewInt(8), pt); q.x.Sign() != 0 || q.y.Cmp(big.NewInt(1)) != 0 {
+			t.Fatalf("harness: entry %d of the small-order list has another order", i)
+		}
+	}
+	rapid.Check(t, func(rt *rapid.T) {
+		detrand.Seed(rapid.Uint64().Draw(rt, "entropy"))
+		route, variant, id := drawRouteVariantID(rt)
+		kind := rapid.SampledFrom(edEdgeKinds).Draw(rt, "kind")
+		seed := gen.BytesN(rt, "seed", 32)
+		base := gen.Bytes(rt, "msg", 64)
+		stdPriv := stded25519.NewKeyFromSeed(seed)
+		stdPub := []byte(stdPriv.Public().(stded25519.PublicKey))
+		hs := sha512.Sum512(seed)
+		hs[0] &= 248
+		hs[31] &= 127
+		hs[31] |= 64
+		a := leToInt(hs[:32])
+		aPt := edMul(a, edBase)
+		if !bytes.Equal(edEncode(aPt), stdPub) {
+			rt.Fatalf("harness: own arithmetic gives public key %x for seed %x, crypto/ed25519 %x", edEncode(aPt), seed, stdPub)
+		}
+		smallIdx := func(label string, lo int) int { return rapid.IntRange(lo, len(edSmallOrder)-1).Draw(rt, label) }
+		nonce := leToInt(gen.BytesN(rt, "nonce", 32))
+		nonce.Mod(nonce, ed25519L)
+
+		// the public key bytes under test
+		pub := bytes.Clone(stdPub)
+		var note string
+		var tPt edPoint
+		switch kind {
+		case "small-A/small-R":
+			i := smallIdx("A", 0)
+			pub, note = bytes.Clone(edSmallOrder[i]), fmt.Sprintf("A = small-order list entry %d", i)
+		case "mixed-order-A":
+			i := smallIdx("T", 1) // not the identity (entries 8, 12, 13 are: they leave A unchanged, accept side)
+			tPt, _ = edDecode(edSmallOrder[i])
+			pub, note = edEncode(edAdd(aPt, tPt)), fmt.Sprintf("A = a*B + T, T = small-order list entry %d", i)
+		case "noncanonical-y-A":
+			j := rapid.IntRange(0, 18).Draw(rt, "y_minus_p")
+			pub = intToLE(new(big.Int).Add(edP, big.NewInt(int64(j))), 32)
+			if rapid.Bool().Draw(rt, "signbit") {
+				pub[31] |= 0x80
+			}
+			note = fmt.Sprintf("A = encoding of y = p + %d", j)
+		}
+
+		c := &sigCase{scheme: "ED25519-edge", params: kind, variant: variant, id: id, route: route,
+			keyDesc: fmt.Sprintf("pub=%x (%s; honest seed=%x pub=%x)", pub, note, seed, stdPub), prefix: tk.Prefix(variant, id)}
+		switch route {
+		case "subtle":
+			var v tink.Verifier
+			var err error
+			if rapid.Bool().Draw(rt, "subtle_from_key") {
+				k := stded25519.PublicKey(bytes.Clone(pub))
+				v, err = sigsubtle.NewED25519VerifierFromPublicKey(&k)
+			} else {
+				v, err = sigsubtle.NewED25519Verifier(bytes.Clone(pub))
+			}
+			if err != nil {
+				rt.Fatalf("%v\n subtle verifier constructor: %v", c, err)
+			}
+			c.verifier = v
+		default:
+			params, err := ed25519.NewParameters(ed25519Variant(variant))
+			if err != nil {
+				rt.Fatalf("%v\n NewParameters: %v", c, err)
+			}
+			// 32 bytes is all NewPublicKey documents; point validity is the verifier's business
+			pk, err := ed25519.NewPublicKey(bytes.Clone(pub), id, params)
+			if err != nil {
+				rt.Fatalf("%v\n NewPublicKey: %v", c, err)
+			}
+			if route == "key" {
+				if c.verifier, err = ed25519.NewVerifier(pk, internalapi.Token{}); err != nil {
+					rt.Fatalf("%v\n NewVerifier: %v", c, err)
+				}
+			} else {
+				h, err := tk.HandleFromKey(pk)
+				if err != nil {
+					rt.Fatalf("%v\n handle: %v", c, err)
+				}
+				if c.verifier, err = signature.NewVerifier(h); err != nil {
+					rt.Fatalf("%v\n signature.NewVerifier: %v", c, err)
+				}
+			}
+		}
+		c.ref = func(raw, effMsg []byte) bool {
+			return len(raw) == stded25519.SignatureSize && stded25519.Verify(stded25519.PublicKey(pub), effMsg, raw)
+		}
+
+		// messages base || j: the challenge k = H(R || A || M) mod L changes with j, and with it k mod 8,
+		// on which the verdict for small-order components depends
+		msgs := make([][]byte, 16)
+		for j := range msgs {
+			msgs[j] = cat(base, []byte{byte(j)})
+		}
+		rPt := edMul(nonce, edBase)
+		sFor := func(rEnc []byte, m []byte) []byte { // S = r + H(R || A || M) * a mod L
+			k := edHashScalar(rEnc, pub, c.eff(m))
+			s := new(big.Int).Mul(k, a)
+			return intToLE(s.Add(s, nonce).Mod(s, ed25519L), 32)
+		}
+		switch kind {
+		case "small-A/small-R":
+			i := smallIdx("R", 0)
+			rEnc := edSmallOrder[i]
+			sKind := rapid.SampledFrom([]string{"S=0", "S=0", "S=L", "S=drawn"}).Draw(rt, "S")
+			s := make([]byte, 32)
+			switch sKind {
+			case "S=L":
+				s = intToLE(ed25519L, 32)
+			case "S=drawn":
+				s = intToLE(nonce, 32)
+			}
+			for j, m := range msgs {
+				c.tryRaw(rt, fmt.Sprintf("edge: R = small-order list entry %d, %s, message %d", i, sKind, j), cat(rEnc, s), m)
+			}
+		case "mixed-order-A":
+			rEnc := edEncode(rPt)
+			for j, m := range msgs {
+				c.tryRaw(rt, fmt.Sprintf("edge: R = r*B, S = r + k*a for the mixed-order key, message %d", j), cat(rEnc, sFor(rEnc, m)), m)
+			}
+		case "mixed-order-R":
+			i := smallIdx("T", 1)
+			tPt, _ = edDecode(edSmallOrder[i])
+			rEnc := edEncode(edAdd(rPt, tPt))
+			for j, m := range msgs[:4] {
+				c.tryRaw(rt, fmt.Sprintf("edge: R = r*B + small-order list entry %d, S = r + k*a, message %d", i, j), cat(rEnc, sFor(rEnc, m)), m)
+			}
+			// control: the same construction with T = identity is an ordinary valid signature
+			rEnc = edEncode(rPt)
+			c.tryRaw(rt, "edge-control: R = r*B, S = r + k*a", cat(rEnc, sFor(rEnc, msgs[0])), msgs[0])
+		case "honest-A/small-R":
+			// S = k*a (nonce 0): S*B - k*A is the identity, so only R = canonical identity can match
+			i := smallIdx("R", 0)
+			rEnc := edSmallOrder[i]
+			for j, m := range msgs[:4] {
+				k := edHashScalar(rEnc, pub, c.eff(m))
+				s := new(big.Int).Mul(k, a)
+				c.tryRaw(rt, fmt.Sprintf("edge: R = small-order list entry %d, S = k*a, message %d", i, j), cat(rEnc, intToLE(s.Mod(s, ed25519L), 32)), m)
+			}
+		case "S-plus-multiple-of-L":
+			sig := stded25519.Sign(stdPriv, c.eff(msgs[0]))
+			c.tryRaw(rt, "edge-control: crypto/ed25519 signature", sig, msgs[0])
+			sv := leToInt(sig[32:])
+			for _, mult := range []int64{1, 2, 8, 14, 15} {
+				w := new(big.Int).Add(sv, new(big.Int).Mul(big.NewInt(mult), ed25519L))
+				if w.BitLen() <= 256 {
+					c.tryRaw(rt, fmt.Sprintf("edge: S + %d*L", mult), cat(sig[:32], intToLE(w, 32)), msgs[0])
+				}
+			}
+			hi := bytes.Clone(sig)
+			hi[63] |= 0x80
+			c.tryRaw(rt, "edge: S with bit 255 set", hi, msgs[0])
+		case "noncanonical-y-A":
+			rEnc := edEncode(rPt)
+			for j, m := range msgs[:2] {
+				c.tryRaw(rt, fmt.Sprintf("edge: honest-style signature under the non-canonical key, message %d", j), cat(rEnc, sFor(rEnc, m)), m)
+			}
+			i := smallIdx("R", 0)
+			for j, m := range msgs[:4] {
+				c.tryRaw(rt, fmt.Sprintf("edge: R = small-order list entry %d, S = 0, message %d", i, j), cat(edSmallOrder[i], make([]byte, 32)), m)
+			}
+		}
+		evid.Add("edge_candidates_accepted_by_both", int64(c.accept))
+		evid.Add("edge_candidates_rejected_by_both", int64(c.reject))
+		evid.Add("candidates_in_reused_buffers", int64(c.bufReuse))
+		verdicts := "reject-only"
+		if c.accept > 0 && c.reject > 0 {
+			verdicts = "both-verdicts"
+		} else if c.accept > 0 {
+			verdicts = "accept-only"
+		}
+		evid.Case(fmt.Sprintf("ED25519-edge/%s/%s/%s/%s", kind, variant, route, verdicts), true,
+			evid.NewH().S(kind).S(variant).I(int64(id)).S(route).B(pub).B(seed).B(base).B(nonce.Bytes()).Sum(), func() any {
+				return map[string]any{"case": c.String(), "base_msg": gen.Hex(base), "accept": c.accept, "reject": c.reject}
+			})
 	})
 }
